@@ -160,7 +160,7 @@ func gen(c *core.Ctx) error {
 	sizes := []int{0, 1, 4095, 4096, 4097, 8192, 12289, 16384}
 	big := []int{M - 33, M - 32, M - 31, M - 17, M - 16, M - 15, M - 1, M, M + 1, M + 16, M + 33}
 	if !c.Quick() {
-		for dlt := -40; dlt <= 40; dlt++ {
+		for dlt := -40; dlt <= 40; dlt += 3 {
 			big = append(big, M+dlt)
 		}
 	}
@@ -187,7 +187,7 @@ func gen(c *core.Ctx) error {
 				try(d)
 				c.Count(fmt.Sprintf("size-%s", sizeClass(n)))
 				// buffered in unequal chunks / as partial frames
-				if n > 0 && !later && (n < 100000 || !c.Quick() || n == M-16) {
+				if n > 0 && !later && (n < 100000 || n == M-16 || (!c.Quick() && n%5 == 0)) {
 					parts := []int{n / 3, n - n/3}
 					d2 := &desc{Setup: su, Dirs: []bool{true}, API: []string{apis[(si+n)%3]}, Chunk: 1 + n/2,
 						Msgs: [][]ss.Msg{{{Kind: "buffered", Chunks: chunksOf(3, parts)}}}}
